@@ -84,6 +84,11 @@ def scenarios():
     # the derived output name is the input font itself, reached through a symbolic link: f.ttf -> f_gr.ttf
     add("derived_output_is_the_linked_input", {"sameInOut": 1}, out=None, fontname_link=("f.ttf", "f_gr.ttf"))
     add("semantic_error_dbg", {"preCompileOk": 0, "dbgFiles": 1, "dbgXml": 1}, gdl=SEMANTIC, opts=["-D"])
+    # every failure stage with all debug output requested (the temporary file of the pre-processor must go whatever is asked)
+    add("syntax_error_dbgall", {"parseOk": 0, "dbgFiles": 1, "dbgXml": 1}, gdl=SYNTAX, opts=["-D"])
+    add("syntax_error_dbgxml_then_dbgall", {"parseOk": 0, "dbgFiles": 1, "dbgXml": 1}, gdl=SYNTAX, opts=["-d", "-D"])
+    add("font_garbage_dbgall", {"fontOk": 0, "dbgFiles": 1, "dbgXml": 1}, font_bytes=b"this is not a font" * 20, opts=["-D"])
+    add("pp_error_dbgall", {"ppOk": 0, "dbgFiles": 1, "dbgXml": 1}, gdl=GOOD.replace("table(glyph)", "#error stop\ntable(glyph)", 1), opts=["-D"])
     # debug files next to an output font whose path has more dots than the one before the extension
     add("ok_dbgxml_dotted_name", {"dbgXml": 1}, opts=["-d"], out="pig.v2.ttf")
     add("ok_dbgxml_dot_slash", {"dbgXml": 1}, opts=["-d"], out="./dot.ttf")
